@@ -594,6 +594,7 @@ func runCase(t *testing.T, tr *hx.Trace, id int, r *rand.Rand, script []string) 
 		w.start()
 		defer w.stop()
 		tr.Linef("%s", header)
+		storedEnd := map[int]int64{} // per alert id: the end the provider stored at its last post
 		do := func(line string) {
 			// everything that happens while the clock advances to the op's instant precedes the op
 			w.sleepTo(hx.Atoi64(strings.Fields(line)[1]))
@@ -603,6 +604,12 @@ func runCase(t *testing.T, tr *hx.Trace, id int, r *rand.Rand, script []string) 
 			obs := w.exec(line)
 			synctest.Wait()
 			tr.Linef("%s -> %s", line, obs)
+			if f := strings.Fields(line); f[0] == "post" {
+				if o := strings.Fields(obs); len(o) == 3 {
+					id, _ := strconv.Atoi(f[2])
+					storedEnd[id] = hx.Atoi64(o[1])
+				}
+			}
 			for _, e := range w.drain() {
 				tr.Linef("%s", e)
 			}
@@ -639,6 +646,14 @@ func runCase(t *testing.T, tr *hx.Trace, id int, r *rand.Rand, script []string) 
 					end = now + int64(1+r.IntN(20))*sec // short timeout: resolves soon
 				default:
 					end = now + 5*60*sec
+				}
+				if e, ok := storedEnd[id]; ok && e <= now && r.IntN(3) == 0 {
+					// the alert fires again, starting at the very instant its stored (resolved) episode ended: no overlap,
+					// a new episode with its own start (a group re-created for it gets a fresh group_wait)
+					start = e
+					if end < start {
+						end = now + 5*60*sec
+					}
 				}
 				do(fmt.Sprintf("post %d %d %d %d", now, id, start, end))
 			case x < 60:
